@@ -71,7 +71,9 @@ AltFor(g) == IF g < 1 \/ g > Total \/ g <= under \/ g > Total - over THEN NaNAlt
              ELSE LET p == Locate(g - under, 1) IN
                   [nan |-> FALSE] @@ Around(p[1], p[2], bins[p[1]])
 \* q = a/16; floor(q * total); both readings of "the floor(q*total)-th smallest sample"
-Admissible(a) == LET g == (a * Total) \div 16 IN {AltFor(g), AltFor(g + 1)}
+\* first the 1-based reading (sample number g), then the 0-based one (sample index g); an implementation must
+\* follow ONE reading for all q
+Admissible(a) == LET g == (a * Total) \div 16 IN <<AltFor(g), AltFor(g + 1)>>
 \* within one rank convention the admissible intervals move up with q, so "non-decreasing in q" is satisfiable
 G(a) == (a * Total) \div 16
 AdmMonotone == \A a \in 0..15 : \A d \in {0, 1} :
